@@ -78,19 +78,49 @@ class Runner:
         self.R = R
         self.N = A.Namespace()
         self.n = 0
+        self.variant = "plain"
         problems: list[str] = []
         self.battery = A.battery(self.N, problems)
         for pr in problems:
             R.monitor("accepts-conforming", False, where={"kind": "rejected-conforming", "top": "generic", "at": "generic", "origin": "battery-construction", "error": "construction"}, detail=f"building an obviously valid instance failed: {pr}", case={"battery": pr})
 
-    def make_class(self, attrs: list[tuple[str, Any, Any]], variant: str = "plain") -> tuple[Any, str] | None:
+    def make_class(self, attrs: list[tuple[str, Any, Any]], variant: str = "plain", force: tuple[int, tuple[int, ...]] | None = None) -> tuple[Any, str] | None:
         """attrs: (name, term, default or NODEFAULT); variant plain | subclass (attributes and defaults inherited) |
         generic (class K[T] with an extra attribute of type T, used through its specialisation K[int])"""
         self.n += 1
+        self.variant = variant
+        self.vflags: dict[str, Any] = {}
         name = f"K{self.n}"
-        lines = [f"class {name}[T](State):" if variant == "generic" else f"class {name}(State):"]
+        lines = [f"class {name}[T](State):" if variant in ("generic", "typevar", "typevar-subclass") else f"class {name}(State):"]
         if variant == "generic":
             lines.append("    hv_t: T")
+        argument = None
+        if variant.startswith("typevar"):
+            # one subterm of one attribute's annotation is abstracted into the type parameter T and supplied again as the type
+            # argument: K[T] specialised with that subterm means exactly what the plain class means, so the oracle is unchanged
+            rng = random.Random(f"{self.n}/{len(attrs)}")
+            order = list(range(len(attrs)))
+            rng.shuffle(order)
+            for ai in order:
+                cands = [(p, t) for p, t in A.positions(attrs[ai][1]) if not A.mentions(t, "self")]
+                if force is not None:
+                    ai = force[0]
+                    cands = [(p, t) for p, t in cands if p == force[1]]
+                if cands and not A.mentions(attrs[ai][1], "self"):
+                    pos, argument = rng.choice(cands)
+                    attrs = [*attrs]
+                    attrs[ai] = (attrs[ai][0], A.abstract_at(attrs[ai][1], pos, ("var", "T")), attrs[ai][2])
+                    self.R.count("typevar_positions_below_top" if pos else "typevar_positions_top")
+                    # mechanism flag: the type argument None ends up inside an argument of a generic State annotation
+                    inside_generic_state = any(t[0] == "generic" and len(p) < len(pos) and pos[: len(p)] == p for p, t in A.positions(attrs[ai][1]))
+                    if argument == ("none",) and inside_generic_state:
+                        self.vflags["none_substituted_into_generic_state"] = True
+                    if len(pos) >= 1 and any(t[0] in ("generic", "palias") for p, t in A.positions(attrs[ai][1]) if t[0] in ("generic", "palias") and any(x == ("var", "T") for x in t[2])):
+                        self.R.count("typevar_inside_generic_or_alias_argument")
+                    break
+            if argument is None:
+                variant = self.variant = "plain"
+                lines = [f"class {name}(State):"]
         for an, term, default in attrs:
             if default is NODEFAULT:
                 lines.append(f"    {an}: {A.render(term)}")
@@ -99,16 +129,20 @@ class Runner:
                 lines.append(f"    {an}: {A.render(term)} = _dflt_{self.n}_{an}")
         if variant == "subclass":
             lines += [f"class {name}S({name}):", "    pass"]
+        if variant == "typevar":
+            lines += [f"{name}P = {name}[{A.render(argument)}]"]
+        if variant == "typevar-subclass":
+            lines += [f"class {name}P({name}[{A.render(argument)}]):", "    pass"]
         src = "\n".join(lines) + "\n"
         try:
             self.N.define(src)
-            cls = self.N.ns[name + "S"] if variant == "subclass" else (self.N.ns[name][int] if variant == "generic" else self.N.ns[name])
+            cls = self.N.ns[name + "S"] if variant == "subclass" else (self.N.ns[name][int] if variant == "generic" else (self.N.ns[name + "P"] if variant.startswith("typevar") else self.N.ns[name]))
         except BaseException as exc:  # noqa: BLE001
-            self.R.monitor("accepts-conforming", False, where={"kind": "class-definition-failed", "error": type(exc).__name__}, detail=f"{src!r} raised {exc!r}", case={"source": src})
+            self.R.monitor("accepts-conforming", False, where={"kind": "class-definition-failed", "error": type(exc).__name__, "variant": variant}, detail=f"{src!r} raised {exc!r}", case={"source": src})
             return None
         # keep the namespace small
         if self.n % 50 == 0:
-            for k in [k for k in self.N.ns if k.startswith("K") and k[1:].isdigit() and int(k[1:]) < self.n - 5]:
+            for k in [k for k in self.N.ns if k.startswith("K") and k[1:].rstrip("SP").isdigit() and int(k[1:].rstrip("SP")) < self.n - 5]:
                 del self.N.ns[k]
         return cls, src
 
@@ -127,6 +161,10 @@ class Runner:
         R.distinct("terms", A.render(term))
         status, res = self.construct(cls, {**others, attr: v})
         where = {"top": top_kind(term), "at": at or top_kind(term), "origin": origin}
+        if self.variant != "plain":
+            where["variant"] = self.variant
+            where.update(self.vflags)
+            R.count(f"values_checked_through_{self.variant}")
         if verdict is None:
             R.monitor("accepts-conforming" if status == "ok" else "rejects-violating", None)
             R.count("unspecified_values")
@@ -141,8 +179,8 @@ class Runner:
         else:
             R.monitor("rejects-violating", status != "ok", where={**where, "kind": "accepted-violating"}, detail=f"{A.render(term)} accepted violating value {v!r} -> stored {getattr(res, attr, None)!r}", case=case)
 
-    def exercise_term(self, term: Any, rng: random.Random, nconf: int = 3, full_battery: bool = True) -> None:
-        made = self.make_class([("a", term, NODEFAULT)])
+    def exercise_term(self, term: Any, rng: random.Random, nconf: int = 3, full_battery: bool = True, variant: str = "plain", force: tuple[int, tuple[int, ...]] | None = None) -> None:
+        made = self.make_class([("a", term, NODEFAULT)], variant, force)
         if made is None:
             return
         cls, src = made
@@ -181,14 +219,14 @@ class Runner:
         else:
             self.R.monitor("required-argument", status != "ok", where={"top": top_kind(term), "kind": "omitted-required-accepted"}, detail=f"{A.render(term)}: constructing without the argument gave {res!r}", case={"source": src})
 
-    def exercise_defaults(self, rng: random.Random) -> None:
+    def exercise_defaults(self, rng: random.Random, fixed: tuple[list[Any], str, tuple[int, tuple[int, ...]] | None] | None = None) -> None:
         N = self.N
-        nattr = rng.randint(1, 4)
+        nattr = rng.randint(1, 4) if fixed is None else len(fixed[0])
         attrs = []
         info = []
         for i in range(nattr):
-            term = A.gen_term(rng, rng.randint(0, 3))
-            mode = rng.choice(["none", "good", "good", "bad"])
+            term = A.gen_term(rng, rng.randint(0, 3)) if fixed is None else fixed[0][i]
+            mode = rng.choice(["none", "good", "good", "bad"]) if fixed is None else "good"
             default: Any = NODEFAULT
             if mode == "good":
                 try:
@@ -209,8 +247,8 @@ class Runner:
                     mode = "none"
             attrs.append((f"a{i}", term, default))
             info.append(mode)
-        variant = rng.choice(["plain", "plain", "subclass", "generic"])
-        made = self.make_class(attrs, variant)
+        variant = rng.choice(["plain", "plain", "subclass", "generic", "typevar", "typevar-subclass"]) if fixed is None else fixed[1]
+        made = self.make_class(attrs, variant, fixed[2] if fixed is not None else None)
         if made is None:
             return
         cls, src = made
@@ -232,7 +270,7 @@ class Runner:
         # all supplied
         status, res = self.construct(cls, good)
         self.R.case(("defaults", src), nontrivial=True)
-        self.R.monitor("accepts-conforming", status == "ok", where={"top": "multi", "at": "multi", "origin": "all-conforming", "kind": "rejected-conforming", "error": type(res).__name__ if status != "ok" else None},
+        self.R.monitor("accepts-conforming", status == "ok", where={"top": "multi", "at": "multi", "origin": "all-conforming", "kind": "rejected-conforming", "error": type(res).__name__ if status != "ok" else None, "variant": variant, **self.vflags},
                        detail=f"all arguments conforming but construction raised {res!r}; args {good!r}", case=case)
         if status == "ok":
             for an, v in good.items():
@@ -249,7 +287,7 @@ class Runner:
                     self.R.monitor("required-argument", status != "ok", where={"top": top_kind(term), "kind": "omitted-required-accepted"}, detail=f"{an}: {A.render(term)} omitted, got {res!r}", case=case)
             elif mode == "good":
                 ok = status == "ok" and A.normal(getattr(res, an, None), N.State) == A.normal(default, N.State)
-                self.R.monitor("default-validated", ok, where={"top": top_kind(term), "kind": "conforming-default-not-used", "status": status, "variant": variant}, detail=f"{an}: {A.render(term)} default {default!r}, construction without it -> {res!r}", case=case)
+                self.R.monitor("default-validated", ok, where={"top": top_kind(term), "kind": "conforming-default-not-used", "status": status, "variant": variant, **self.vflags}, detail=f"{an}: {A.render(term)} default {default!r}, construction without it -> {res!r}", case=case)
             else:
                 self.R.monitor("default-validated", status != "ok", where={"top": top_kind(term), "kind": "violating-default-accepted"}, detail=f"{an}: {A.render(term)} violating default {default!r} accepted -> {getattr(res, an, None)!r}", case=case)
             # one breaker in this attribute while the rest conforms
@@ -279,12 +317,23 @@ def run(R: Recorder, tier: str, seed: int, shard: int, nshards: int) -> None:
     for i, term in enumerate(terms):
         if i % nshards == shard:
             run.exercise_term(term, rng, nconf=8 if tier == "quick" else 4, full_battery=(tier == "quick" or i % 4 == 0))
+            # the same term once more with one of its subterms passed in as a type argument (directly / through a subclass of the specialisation)
+            run.exercise_term(term, rng, nconf=2, full_battery=False, variant="typevar" if i % 2 else "typevar-subclass")
+    if shard == 0:
+        # fixed probes: type arguments substituted below the top level of generic State / alias arguments, two-argument generic
+        # states, subclasses of specialisations - and the one spelling that is a known finding (type argument None)
+        S, P = ("prim", "str"), ("prim", "int")
+        for term, pos in ((("generic", "Pair2", [("seq", ("none",)), S]), (0, 0)), (("generic", "Pair2", [("seq", P), S]), (0, 0)), (("generic", "Box", [("set", P)]), (0, 0)),
+                          (("palias", "MaybeSeq", [("frozenset", P)]), (0, 0)), (("generic", "Pair2", [P, ("generic", "Box", [P])]), (0,)), (("seq", ("palias", "MaybeSeq", [("generic", "Box", [("none",)])])), (0, 0, 0))):
+            for variant in ("typevar", "typevar-subclass"):
+                run.exercise_term(term, rng, nconf=4, full_battery=False, variant=variant, force=(0, pos))
+                run.exercise_defaults(rng, fixed=([term], variant, (0, pos)))
     rngt = random.Random(f"C05/{seed}")
     for i in range(RANDOM_TERMS[tier]):
         term = A.gen_term(rngt, rngt.randint(2, 4))
         if i % nshards != shard:
             continue
-        run.exercise_term(term, rng, nconf=3, full_battery=False)
+        run.exercise_term(term, rng, nconf=3, full_battery=False, variant=("plain", "typevar", "typevar-subclass")[i % 3])
         run.exercise_defaults(rng)
     sample_term = ("map", ("prim", "str"), ("seq", ("union", [("prim", "int"), ("none",)])))
     v = {"k": [1, None], "ab": []}
